@@ -373,7 +373,17 @@ def run(ctx):
     model_check(ctx)
     inputs = list(gen_cases(ctx))
     # thickness-major order: the reference runs are computed during the first third and reused afterwards
-    recs = pmap(__name__, "observe", inputs, procs=PARALLEL, mode="thread")
+    # every scene compiles its own run_fdtd: hundreds of cached executables exhaust memory in the thorough sweep
+    # (SIGSEGV / SIGABRT observed), so scenes are run in batches and the jit caches are dropped in between
+    import gc
+
+    import jax
+
+    recs = []
+    for b in range(0, len(inputs), 24):
+        recs += pmap(__name__, "observe", inputs[b:b + 24], procs=PARALLEL, mode="thread")
+        jax.clear_caches()
+        gc.collect()
     for r in recs[:2]:
         ctx.sample({k: v for k, v in r.items() if k != "events"} | {"events_head": r["events"][:4]})
     ctx.nontrivial = len({json.dumps(c, sort_keys=True) for c in inputs})
